@@ -66,6 +66,7 @@ type walker struct {
 	seed     uint64            // seed of the map tree being rendered
 	haveSeed bool
 	univ     []MV              // keys operations may use on the map being rendered
+	table    bool              // the map being rendered uses the caller-supplied digest table
 	dnames   map[uint64]map[uint64]string // per seed: level-0 digest -> universe key name(s)
 }
 
@@ -88,12 +89,15 @@ func (k *walker) seedNames(seed uint64) map[uint64]string {
 	if k.dnames == nil {
 		k.dnames = map[uint64]map[uint64]string{}
 	}
+	if k.table {
+		seed = ^seed // separate cache entry for table-digest maps
+	}
 	if m, ok := k.dnames[seed]; ok {
 		return m
 	}
 	m := map[uint64]string{}
 	for _, key := range k.univ {
-		d, ok := k.w.level0Digest(key, seed)
+		d, ok := k.w.level0Digest(key, seed, k.table)
 		if !ok {
 			continue
 		}
@@ -114,7 +118,7 @@ func (k *walker) orderLine(seed uint64) string {
 	}
 	var ks []kd
 	for _, key := range k.univ {
-		if d, ok := k.w.level0Digest(key, seed); ok {
+		if d, ok := k.w.level0Digest(key, seed, k.table); ok {
 			ks = append(ks, kd{d, keyText(key)})
 		}
 	}
@@ -201,10 +205,11 @@ func (k *walker) slab(id atree.SlabID, parent atree.SlabID, root int) {
 func (k *walker) slabBody(s atree.Slab, self atree.SlabID, root int) {
 	info := atree.VerifDescribeSlab(s)
 	if info.HasExtraData && (info.Kind == "mapData" || info.Kind == "mapMeta") {
-		oldSeed, oldHave, oldUniv := k.seed, k.haveSeed, k.univ
+		oldSeed, oldHave, oldUniv, oldTable := k.seed, k.haveSeed, k.univ, k.table
 		k.seed, k.haveSeed = info.MapSeed, true
 		k.univ = k.w.universeOfMap(slabIDToValueID(info.SlabID))
-		defer func() { k.seed, k.haveSeed, k.univ = oldSeed, oldHave, oldUniv }()
+		k.table = k.w.isTableMap(slabIDToValueID(info.SlabID))
+		defer func() { k.seed, k.haveSeed, k.univ, k.table = oldSeed, oldHave, oldUniv, oldTable }()
 		fmt.Fprintf(&k.sb, "ord(%s)", k.orderLine(info.MapSeed))
 	}
 	switch info.Kind {
@@ -463,8 +468,12 @@ func (w *World) modelText(wk *Walk) string {
 			sb.WriteString("}")
 			if c.Map != nil && !w.traceMode {
 				root, hp := atree.VerifMapState(c.Map)
-				fmt.Fprintf(&sb, " h pu=%v", hp)
+				fmt.Fprintf(&sb, " h(%s) pu=%v", w.provOf(c.Map), hp)
 				sb.WriteString(w.handleRootText(c, root, wk))
+			}
+			if c.AltMap != nil && !w.traceMode {
+				root, hp := atree.VerifMapState(c.AltMap)
+				fmt.Fprintf(&sb, " alt(%s) pu=%v%s", w.provOf(c.AltMap), hp, w.handleRootText(c, root, wk))
 			}
 		} else {
 			sb.WriteString("[")
@@ -474,7 +483,7 @@ func (w *World) modelText(wk *Walk) string {
 			sb.WriteString("]")
 			if c.Arr != nil && !w.traceMode {
 				root, hp, tracked := atree.VerifArrayState(c.Arr)
-				fmt.Fprintf(&sb, " h pu=%v tr[", hp)
+				fmt.Fprintf(&sb, " h(%s) pu=%v tr[", w.provOf(c.Arr), hp)
 				var ts []string
 				for _, t := range tracked {
 					o, ok := vidOwner[t.ValueID]
@@ -487,6 +496,10 @@ func (w *World) modelText(wk *Walk) string {
 				sb.WriteString(strings.Join(ts, " "))
 				sb.WriteString("]")
 				sb.WriteString(w.handleRootText(c, root, wk))
+			}
+			if c.AltArr != nil && !w.traceMode {
+				root, hp, _ := atree.VerifArrayState(c.AltArr)
+				fmt.Fprintf(&sb, " alt(%s) pu=%v%s", w.provOf(c.AltArr), hp, w.handleRootText(c, root, wk))
 			}
 		}
 		sb.WriteString("\n")
@@ -642,4 +655,13 @@ func (w *World) TraceText() string {
 	defer func() { w.traceMode = false }()
 	t, _ := w.StateText()
 	return t
+}
+
+func (w *World) isTableMap(vid atree.ValueID) bool {
+	for _, x := range w.Conts {
+		if x.VID == vid && !x.Dead {
+			return x.Table
+		}
+	}
+	return false
 }
